@@ -48,46 +48,10 @@ theorem evalRangeFn_same (c : Ctx V) (s' s : VSel) (h : SameSel c s' s) (fn : St
 
 /-! ### `timestamp()` -/
 
-/-- the value of `timestamp(a)` as a function of the unwrapped form `u` of `a` and of `a`'s value -/
-def tsBody (c : Ctx V) (t : Int) (u : Expr V) (r : Except Err (Value V)) : Except Err (Value V) :=
-  match u with
-  | .vsel s =>
-    if c.q.timestampIsStepTime then do
-      let v ← (← r).asVec
-      dedupCheck c (v.map fun x => (x.1.dropName, div (ofInt t) (ofInt 1000)))
-    else
-      match s.atTs with
-      | none =>
-        dedupCheck c ((selectT c s (s.refTime c.start t)).map fun x =>
-          (x.1.dropName, div (ofInt x.2.1) (ofInt 1000)))
-      | some a =>
-        let o := s.origOffset
-        let hi := if o ≥ 0 then a - o else a
-        let lo := if o ≥ 0 then a - c.lookback else a - c.lookback - o
-        dedupCheck c ((matchingSeries c s).filterMap fun sr =>
-          match latestAtOrBefore sr.samples hi with
-          | some ⟨ts, .num _⟩ =>
-            if ts < lo then none else some (sr.labels.dropName, div (ofInt ts) (ofInt 1000))
-          | _ => none)
-  | _ => do
-    let v ← (← r).asVec
-    dedupCheck c (v.map fun x => (x.1.dropName, div (ofInt t) (ofInt 1000)))
-
-theorem eval_timestamp (c : Ctx V) (t : Int) (a : Expr V) (hm : isMsel a = false) :
-    eval c t (.call "timestamp" [a]) = tsBody c t a.unwrap (eval c t a) := by
-  have hne := isMsel_false_ne a hm
-  unfold tsBody
-  rw [eval] <;> first | rfl | (intro s r hh; exact hne s r hh) | skip
-
 theorem tsBody_same (c : Ctx V) (t : Int) (s' s : VSel) (h : SameSel c s' s) (r : Except Err (Value V)) :
     tsBody c t (.vsel s') r = tsBody c t (.vsel s) r := by
   unfold tsBody
   simp only [h.2.1, h.1, selectT_same c s' s h, refTime_same c s' s h, matchingSeries_same c s' s h]
-
-theorem tsBody_other (c : Ctx V) (t : Int) (u u' : Expr V) (hu : ∀ s, u ≠ .vsel s) (hu' : ∀ s, u' ≠ .vsel s)
-    (r : Except Err (Value V)) : tsBody c t u' r = tsBody c t u r := by
-  unfold tsBody
-  cases u <;> cases u' <;> first | rfl | (exact absurd rfl (hu _)) | (exact absurd rfl (hu' _))
 
 /-! ### congruence of calls -/
 
